@@ -22,6 +22,8 @@ BOUNDS = {
     "thorough": "values: all reals; operand shapes %s (exponents -3..3, depth <= 3), units m,cm,km,ft / s,min,h / kg,g,lbm, categories "
                 "length+depth, seeded sample of 1500 unit assignments per shape and 20000 exponent-1 table pairs" % exprs.THOROUGH,
 }
+BOUNDS_ALSO = '; also: three shapes whose factor cancels across two categories of one quantity type; augmented forms a += b / a -= b in every configuration; every unit of the table against the base unit of its quantity type in both orders, and all case-variant unit pairs, with base magnitudes read from the to-base factors alone'
+BOUNDS = {k_: v_ + BOUNDS_ALSO for k_, v_ in BOUNDS.items()}
 ASSUMPTIONS = ["A-FP: floats are exact reals", "dimensional model: magnitude = value * prod(slope(tobase_unit)^exp), scale-only units",
                "numeric equality is |a-b| <= 1e-13*(|a|+|b|+1) over the reals", "A-SHIM"]
 CHUNK = 8
